@@ -11,7 +11,9 @@ against it:
 Writes /verif/seeded/<seed-id>/{patch.diff,demo.rs,meta.json}."""
 import json, os, re, shutil, subprocess, sys, time
 
-WT = "/tmp/seedwt"
+WT = os.environ.get("SEEDWT", "/tmp/seedwt")
+R = os.environ.get("REPO_DIR", "/repo")
+V = os.environ.get("VERIF_DIR", "/verif")
 ENV = dict(os.environ, CARGO_NET_OFFLINE="true", CARGO_TERM_COLOR="never")
 
 
@@ -64,20 +66,20 @@ def main():
     ok = (meta["suite_with_change"]["exit"] == 0 and failed == 0 and rc1 != 0 and rc2 == 0)
     meta["confirmed"] = ok
     # run the checks against /repo with the patch applied
-    rc, out = sh(["git", "-C", "/repo", "status", "--porcelain", "--untracked-files=no"])
-    assert out.strip() == "", "/repo working tree is not clean: " + out
+    rc, out = sh(["git", "-C", R, "status", "--porcelain", "--untracked-files=no"])
+    assert out.strip() == "", R + " working tree is not clean: " + out
     results = {}
     try:
-        rc, out = sh(["git", "-C", "/repo", "apply", patch])
+        rc, out = sh(["git", "-C", R, "apply", patch])
         assert rc == 0, out
         for c in check_ids:
             t0 = time.time()
-            rc, out = sh(["./check", c, "--tier", "quick"], "/verif", timeout=1800)
+            rc, out = sh(["./check", c, "--tier", "quick"], V, timeout=1800)
             lines = [l for l in out.splitlines() if l.startswith("VIOLATION") or l.startswith("MACHINERY") or l.startswith("  ")]
             results[c] = {"exit": rc, "wall_s": round(time.time() - t0, 1), "first_lines": lines[:4]}
             print("  check %s -> exit %d (%.1fs) %s" % (c, rc, time.time() - t0, (lines[1].strip()[:200] if len(lines) > 1 else (lines[0][:200] if lines else ""))))
     finally:
-        sh(["git", "-C", "/repo", "checkout", "--", "."])
+        sh(["git", "-C", R, "checkout", "--", "."])
     meta["checks"] = results
     meta["caught_by"] = [c for c in check_ids if results.get(c, {}).get("exit") == 1]
     meta["machinery_errors"] = [c for c in check_ids if results.get(c, {}).get("exit") == 2]
